@@ -4,5 +4,5 @@ LEVEL = 'model_checking'
 CLAIM = 'draft'
 HARNESSES = [
     H('options', 'limits.cpp', 'h_options', link=['node/mining_args.cpp', 'node/miner.cpp'], shadow=['nofmt'], unwind=12, timeout=300, objbits=10, functions=['CheckMiningOptions'], bounds='draft'),
-    H('limits', 'limits.cpp', 'h_limits', link=['node/mining_args.cpp', 'node/miner.cpp'], variants=[{'NTX': 1}, {'NTX': 2}], shadow=['nofmt'], unwind=12, memunwind=600, timeout=300, objbits=10, functions=['TestChunkBlockLimits'], bounds='draft'),
+    H('limits', 'limits.cpp', 'h_limits', link=['node/mining_args.cpp', 'node/miner.cpp'], variants=[{'NTX': 1}, {'NTX': 2}], shadow=['nofmt'], unwind=12, memunwind=600, noop=[r'_ZNSt15_Sp_counted_ptrIP12CTransaction\w*10_M_disposeEv'], timeout=300, objbits=10, functions=['TestChunkBlockLimits'], bounds='draft'),
 ]
